@@ -86,11 +86,13 @@ PROPS['C11'] = {
     'lean_imports': ['EmmetProps.C11'],
     'theorems': [
         thm('EmmetProps.C11_consistent', 'every line, every position (also out of range), every option set: a result satisfies start <= location <= end <= len(line), abbreviation = line[location:end], and does not begin with > + ^ *; independent of the is_html heuristic'),
+        thm('EmmetProps.C11_end', 'all inputs: end = the position clamped to the line and moved by look-ahead across at most one quote and then closing brackets'),
+        thm('EmmetProps.C11_prefix', 'all inputs with a prefix: the prefix is the text at start and the abbreviation lies to its right'),
     ],
     'domains': ['dom_extract'],
     'rule': 'all lines up to length 2 (quick) / 3 (thorough) over a 27-symbol alphabet, random fragment mixes (tags, attributes, abbreviations), and generated valid abbreviations (markup and stylesheet) embedded after 12 left contexts (start of line, whitespace, complete tags) and before 6 right contexts; every position -1..len+1 x 6 option sets (type, lookAhead, two prefixes); non-trivial = some position yields a result; distinct = distinct line',
-    'explanation': 'The consistency clause is a theorem for all inputs. The clauses end = look-ahead adjusted position, prefix placement and the round trip (a valid abbreviation after whitespace / line start / a complete tag is extracted exactly) are decided by correspondence with the model plus the oracle on the implementation; the round trip has no theorem yet.',
-    'level_text': 'Lean 4 theorem: result consistency for ALL lines, positions and options (bounds, slice, no leading operator). Round-trip, prefix and look-ahead clauses are at correspondence + oracle level on generated abbreviations in context.',
+    'explanation': 'The consistency, end and prefix clauses are theorems for all inputs. The round trip (a valid abbreviation after whitespace / line start / a complete tag is extracted exactly) are decided by correspondence with the model plus the oracle on the implementation; the round trip has no theorem yet.',
+    'level_text': 'Lean 4 theorems: result consistency, look-ahead end and prefix placement for ALL lines, positions and options. The round-trip clause is at correspondence + oracle level on generated abbreviations in context.',
     'level_note': 'Trusted: Lean kernel + standard axioms; hand-written model of extract_abbreviation/__init__.py, is_html.py, reader.py (0 differences with the code on all explored lines x positions x option sets). Known finding F21b (backslash-escaped brackets inside text are counted as raw brackets) is excluded from the round trip.',
     'assumptions': [CORR],
 }
